@@ -289,6 +289,10 @@ def extract(repo):
         sst_consts(repo, out, grab)
     except OSError as ex:
         notes.append('sst: not extracted (%s)' % ex)
+    try:
+        sbbf_consts(repo, grab)
+    except OSError as ex:
+        notes.append('sbbf: not extracted (%s)' % ex)
     # lsmtk trash names and the manifest info keys the verifier reads (C08)
     def c08():
         l = read(repo, 'lsmtk/src/lib.rs')
@@ -658,6 +662,86 @@ def sst_consts(repo, out, grab):
                             ('sstMetadata', 'struct', 'SstMetadata')]:
         grab(key + 'Fields', lambda kind=kind, name=name: [n for n, _ in sst_message_fields(lib, kind, name)])
         grab(key + 'Wire', lambda kind=kind, name=name: [w for _, w in sst_message_fields(lib, kind, name)])
+
+def sbbf_consts(repo, grab):
+    """the split-block bloom filter (C10): salts, shifts and sizes of sst/src/sbbf.rs.  Every
+    pattern is the statement as the model reads it; a statement that is no longer there leaves
+    the constant undefined and the tie theorem (ConstsTieC10.sbbf_*) does not compile."""
+    src = sst_strip_comments(read(repo, 'sst/src/sbbf.rs'))
+    def num(t):
+        return int(re.sub(r'(u8|u16|u32|u64|usize)$', '', t.strip().replace('_', '')), 0)
+    def fn_body(header):
+        m = re.search(re.escape(header) + r'.*?\n    \}\n', src, re.S)
+        if not m:
+            raise Missing(header)
+        return m.group(0)
+    def salt():
+        m = re.search(r'const\s+SALT\s*:\s*\[u32;\s*(\d+)\]\s*=\s*\[([^\]]+)\]\s*;', src)
+        if not m:
+            raise Missing('SALT')
+        vals = [num(x) for x in m.group(2).split(',') if x.strip()]
+        if len(vals) != int(m.group(1)):
+            raise Missing('SALT length')
+        return vals
+    grab('sbbfSalt', salt)
+    def block_words():
+        m = re.search(r'struct\s+Block\s*\{\s*block\s*:\s*\[u32;\s*(\d+)\]\s*,?\s*\}', src)
+        if not m:
+            raise Missing('struct Block')
+        loops = re.findall(r'for\s+i\s+in\s+0\.\.(\d+)\s*\{', fn_body('fn mask(x: u32) -> Block') + fn_body('fn insert(&mut self, x: u32)')
+                           + fn_body('fn check(&self, x: u32) -> bool') + fn_body('fn try_from(bytes: &[u8]) -> Result<Self, Self::Error> {\n        if bytes.len() !='))
+        if len(loops) != 4:
+            raise Missing('the four loops over the words of a block')
+        return [int(m.group(1))] + [int(x) for x in loops]
+    grab('sbbfBlockWords', block_words)
+    def mask():
+        b = fn_body('fn mask(x: u32) -> Block')
+        m = re.search(r'let\s+mut\s+result\s*=\s*Block::default\(\);.*?let\s+y\s*:\s*u32\s*=\s*\(x\s+as\s+u64\s*\*\s*SALT\[i\]\s+as\s+u64\)\s+as\s+u32\s*;\s*'
+                      r'result\.block\[i\]\s*\|=\s*(\d+)\s*<<\s*\(y\s*>>\s*(\d+)\)\s*;\s*\}\s*result\s*\}', b, re.S)
+        if not m:
+            raise Missing('Block::mask: y = (x as u64 * SALT[i] as u64) as u32; result.block[i] |= 1 << (y >> N)')
+        return [int(m.group(1)), int(m.group(2))]
+    grab('sbbfMask', mask)
+    def insert_check():
+        bi = fn_body('fn insert(&mut self, x: u32)')
+        bc = fn_body('fn check(&self, x: u32) -> bool')
+        ok_i = re.search(r'let\s+mask\s*=\s*Block::mask\(x\);\s*for\s+i\s+in\s+0\.\.\d+\s*\{\s*self\.block\[i\]\s*\|=\s*mask\.block\[i\];\s*\}', bi)
+        ok_c = re.search(r'let\s+mask\s*=\s*Block::mask\(x\);\s*for\s+i\s+in\s+0\.\.\d+\s*\{\s*if\s+self\.block\[i\]\s*&\s*mask\.block\[i\]\s*!=\s*mask\.block\[i\]\s*\{\s*return\s+false;\s*\}\s*\}\s*true', bc)
+        if not ok_i:
+            raise Missing('Block::insert: self.block[i] |= Block::mask(x).block[i]')
+        if not ok_c:
+            raise Missing('Block::check: self.block[i] & mask.block[i] != mask.block[i] => false, with mask = Block::mask(x)')
+        return 1
+    grab('sbbfInsertOrCheckAnd', insert_check)
+    def new_size():
+        m = re.search(r'let\s+size\s*=\s*\(\(size\.saturating_add\((\d+)\)\s*>>\s*(\d+)\)\s*>>\s*(\d+)\)\s*\+\s*(\d+)\s*;', fn_body('pub fn new(size: u32) -> Self'))
+        if not m:
+            raise Missing('Filter::new: ((size.saturating_add(A) >> B) >> C) + D')
+        return [int(x) for x in m.groups()]
+    grab('sbbfNewSize', new_size)
+    def hashing():
+        m = re.search(r'let\s+block_idx\s*=\s*\(\(\(x\s*>>\s*(\d+)\)\s*\*\s*self\.blocks\.len\(\)\s+as\s+u64\)\s*>>\s*(\d+)\)\s+as\s+usize\s*;\s*'
+                      r'assert!\(\s*block_idx\s*<\s*self\.blocks\.len\(\)\s*,.*?\);\s*\(block_idx,\s*x\s+as\s+u32\)', fn_body('fn do_hashing(&self, x: u64) -> (usize, u32)'), re.S)
+        if not m:
+            raise Missing('do_hashing: (((x >> A) * len) >> B) as usize; assert!(block_idx < len); (block_idx, x as u32)')
+        return [int(m.group(1)), int(m.group(2))]
+    grab('sbbfHashShifts', hashing)
+    def sizes():
+        """every 32 / 4 of the byte layout: Block::try_from (len != 32, idx = i * 4, idx + 4),
+        Filter::try_from (is_multiple_of(32), len / 32, idx * 32, idx + 32)"""
+        bt = re.search(r'impl TryFrom<&\[u8\]> for Block \{.*?\n\}\n', src, re.S)
+        ft = re.search(r'impl TryFrom<&\[u8\]> for Filter \{.*?\n\}\n', src, re.S)
+        if not (bt and ft):
+            raise Missing('TryFrom impls')
+        b = re.search(r'if\s+bytes\.len\(\)\s*!=\s*(\d+)\s*\{\s*return\s+Err\(.*?let\s+idx\s*=\s*i\s*\*\s*(\d+)\s*;\s*one\.copy_from_slice\(&bytes\[idx\.\.idx\s*\+\s*(\d+)\]\);\s*'
+                      r'block\.block\[i\]\s*=\s*u32::from_le_bytes\(one\);', bt.group(0), re.S)
+        f = re.search(r'if\s+bytes\.is_empty\(\)\s*\{\s*return\s+Err\(.*?if\s+!bytes\.len\(\)\.is_multiple_of\((\d+)\)\s*\{\s*return\s+Err\(.*?let\s+limit\s*=\s*bytes\.len\(\)\s*/\s*(\d+)\s*;.*?'
+                      r'for\s+idx\s+in\s+0\.\.limit\s*\{\s*let\s+idx\s*=\s*idx\s*\*\s*(\d+)\s*;\s*let\s+block_bytes\s*=\s*&bytes\[idx\.\.idx\s*\+\s*(\d+)\]\s*;', ft.group(0), re.S)
+        w = re.search(r'for\s+b\s+in\s+self\.block\.iter\(\)\s*\{\s*buf\.extend_from_slice\(&b\.to_le_bytes\(\)\);', src)
+        if not (b and f and w):
+            raise Missing('byte layout of Block / Filter try_from / append_to_bytes')
+        return [int(x) for x in b.groups()] + [int(x) for x in f.groups()]
+    grab('sbbfByteLayout', sizes)
 
 C09_CODES = ['CORRUPTION_FILE_TOO_SMALL', 'CORRUPTION_FINAL_BLOCK_OFFSET_TOO_LARGE', 'UNPACK_FINAL_BLOCK',
              'CORRUPTION_BLOCK_METADATA_START_GTE_LIMIT', 'CORRUPTION_INDEX_BLOCK_RUNS_PAST_FILTER_BLOCK',
